@@ -254,7 +254,7 @@ func checkC17Req(t *testing.T, rq *Request, rec *Recorder) []Diff {
 }
 
 func TestC17Request(t *testing.T) {
-	rec := NewRecorder("C17", "C17Request", "rapid: RunTraceroute and the HTTP handler over simulated worlds whose routers have boundary private/public addresses (IPv4 and IPv6), skip-private-hops on vs off, reverse DNS on with a scripted resolver, a third of the requests with the caller cancelling while the runs are in flight; oracle: same predicate on the emitted documents, flag off redacts nothing; non-trivial = >= 1 private and >= 1 public router on the path")
+	rec := NewRecorder("C17", "C17Request", "rapid: RunTraceroute and the HTTP handler over simulated worlds whose routers have boundary private/public addresses (IPv4 and IPv6), skip-private-hops on vs off, reverse DNS on with a scripted resolver, a third of the requests with the caller cancelling while the runs are in flight, a third served after the same path was traced unredacted (names looked up) by the same process; oracle: same predicate on the emitted documents, flag off redacts nothing; non-trivial = >= 1 private and >= 1 public router on the path")
 	RunProp(t, rec, func(rt *rapid.T) *Request {
 		rq := &Request{HTTP: rapid.Bool().Draw(rt, "http")}
 		v6 := rapid.Bool().Draw(rt, "v6")
@@ -308,6 +308,13 @@ func TestC17Request(t *testing.T) {
 		// then returned as a success must be redacted like any other document
 		if oneOf(rt, "caller_cancels", false, false, true) {
 			rq.CancelAtUs = int64(rapid.IntRange(1, 250_000).Draw(rt, "cancel_at_us"))
+		}
+		// a third of the requests are served after the same path was traced unredacted, with names looked up, by the
+		// same process (its caches then know the private routers' names)
+		if oneOf(rt, "history", false, false, true) {
+			bp := rq.P
+			bp.SkipPrivate, bp.ReverseDns, bp.Repeat = false, true, nil
+			rq.Before = []ReqParams{bp}
 		}
 		return rq
 	}, checkC17Req)
